@@ -2,6 +2,7 @@ package rules
 
 import (
 	"go/token"
+	"go/types"
 	"sort"
 	"strings"
 
@@ -74,7 +75,7 @@ func checkClones(c *Ctx, rule string, baseRel, baseTyp, baseName string, deltas 
 			}
 		}
 		r.OK(rule, d.name+"|common", p.FnPos(fn), sprintf("%d elements shared with %s", common, baseName))
-		if common < 8 {
+		if common < 4 {
 			r.Fatal("clone %s shares only %d elements with %s: not a copy of the loop any more (anchors moved?)", d.name, common, baseName)
 		}
 	}
@@ -788,6 +789,191 @@ func c12Anchor(c *Ctx, p *core.Prog, m *parserModel) {
 	}
 	sort.Strings(keys)
 	if !found {
+		// the error is built by a helper (`errors = append(errors, p.newParseError(err, stmtStartPos))`)
+		if c12AnchorViaHelper(c, p, fn, stmtCall, snap) {
+			return
+		}
 		r.Fatal("anchor not found: store to ParseError.TokenIdx in parseWithRecovery")
 	}
+}
+
+// c12AnchorViaHelper: parseWithRecovery hands the construction of the ParseError to a helper. The token the error names
+// is then either the statement start passed in (a parameter stored into TokenIdx), or something computed from the
+// cursor - which is inside the failed statement only as long as the parser has not resynchronised yet: the helper call
+// must come before every call that can move the cursor on the failure path.
+func c12AnchorViaHelper(c *Ctx, p *core.Prog, fn *ssa.Function, stmtCall *ssa.Call, snap ssa.Value) bool {
+	r := c.R
+	isPE := func(t types.Type) bool {
+		n := core.NamedOf(core.Deref(t))
+		return n != nil && n.Obj().Name() == "ParseError"
+	}
+	var site *ssa.Call
+	for _, b := range fn.Blocks {
+		for _, in := range b.Instrs {
+			call, ok := in.(*ssa.Call)
+			if !ok {
+				continue
+			}
+			h := call.Call.StaticCallee()
+			if h == nil || h.Blocks == nil || h.Signature.Results().Len() != 1 || !isPE(h.Signature.Results().At(0).Type()) {
+				continue
+			}
+			site = call
+		}
+	}
+	if site == nil {
+		return false
+	}
+	h := site.Call.StaticCallee()
+	// the TokenIdx store inside the helper
+	var idxVal ssa.Value
+	for _, b := range h.Blocks {
+		for _, in := range b.Instrs {
+			if st, ok := in.(*ssa.Store); ok {
+				if fa, ok := st.Addr.(*ssa.FieldAddr); ok && isPE(fa.X.Type()) && core.FieldName(fa.X.Type(), fa.Field) == "TokenIdx" {
+					idxVal = st.Val
+				}
+			}
+		}
+	}
+	if idxVal == nil {
+		return false
+	}
+	// functions that can move the cursor
+	mayAdvance := map[*ssa.Function]bool{}
+	if adv := p.Method("pkg/sql/parser", "Parser", "advance"); adv != nil {
+		g := p.Restrict(func(f *ssa.Function) bool { return f != nil && f.Blocks != nil && core.InPkgs(f, "pkg/sql/parser") })
+		for f := range g.ReachesIn(adv) {
+			mayAdvance[f] = true
+		}
+		mayAdvance[adv] = true
+	}
+	switch v := idxVal.(type) {
+	case *ssa.Parameter:
+		k := -1
+		for i, q := range h.Params {
+			if q == v {
+				k = i
+			}
+		}
+		if k >= 0 && k < len(site.Call.Args) && snap != nil && site.Call.Args[k] == snap {
+			r.OK("error-anchor", "ParseError.TokenIdx", p.Pos(site.Pos()), "the helper "+h.Name()+" stores the statement's start index, which it is given")
+			return true
+		}
+		r.Violate("error-anchor", "ParseError.TokenIdx", p.Pos(site.Pos()), "the helper "+h.Name()+" stores its parameter "+v.Name()+" into TokenIdx, and that is not the cursor value captured before parseStatement ran")
+		return true
+	}
+	// cursor-derived: reads currentPos itself or through parser methods
+	readsCursor := false
+	seen := map[ssa.Value]bool{}
+	var walk func(v ssa.Value, d int)
+	walk = func(v ssa.Value, d int) {
+		if d > 8 || v == nil || seen[v] {
+			return
+		}
+		seen[v] = true
+		switch x := v.(type) {
+		case *ssa.UnOp:
+			if fa, ok := x.X.(*ssa.FieldAddr); ok && core.FieldName(fa.X.Type(), fa.Field) == "currentPos" {
+				readsCursor = true
+			}
+			walk(x.X, d+1)
+		case *ssa.Call:
+			if f := x.Call.StaticCallee(); f != nil && f.Blocks != nil && f.Signature.Recv() != nil {
+				for _, b := range f.Blocks {
+					for _, in := range b.Instrs {
+						if fa, ok := in.(*ssa.FieldAddr); ok && core.FieldName(fa.X.Type(), fa.Field) == "currentPos" {
+							readsCursor = true
+						}
+					}
+				}
+			}
+			for _, a := range x.Call.Args {
+				walk(a, d+1)
+			}
+		case *ssa.BinOp:
+			walk(x.X, d+1)
+			walk(x.Y, d+1)
+		case *ssa.Phi:
+			for _, e := range x.Edges {
+				walk(e, d+1)
+			}
+		}
+	}
+	walk(idxVal, 0)
+	if !readsCursor {
+		r.Violate("error-anchor", "ParseError.TokenIdx", p.Pos(site.Pos()), "the helper "+h.Name()+" computes TokenIdx from neither the statement's start index nor the cursor")
+		return true
+	}
+	// no cursor-moving call between the failing parseStatement and the helper call, on any path
+	moved := ""
+	seenB := map[*ssa.BasicBlock]bool{}
+	var scan func(b *ssa.BasicBlock, from int) bool // true: reached the site
+	scan = func(b *ssa.BasicBlock, from int) bool {
+		for i := from; i < len(b.Instrs); i++ {
+			in := b.Instrs[i]
+			if in == ssa.Instruction(site) {
+				return true
+			}
+			if call, ok := in.(*ssa.Call); ok {
+				if f := call.Call.StaticCallee(); f != nil && mayAdvance[f] {
+					// a cursor move: does the site still lie ahead?
+					if core.BlockReaches(b, site.Block()) {
+						moved = f.Name() + " at " + p.Pos(call.Pos())
+					}
+					return false
+				}
+			}
+		}
+		for _, sc := range b.Succs {
+			if !seenB[sc] {
+				seenB[sc] = true
+				if scan(sc, 0) {
+					// keep looking on the other successors for a moved path
+				}
+			}
+		}
+		return false
+	}
+	// start on the failure side of the statement parser's error test
+	var failBlk *ssa.BasicBlock
+	for _, ref := range core.Referrers(stmtCall) {
+		ex, ok := ref.(*ssa.Extract)
+		if !ok {
+			continue
+		}
+		for _, r2 := range core.Referrers(ex) {
+			bo, ok := r2.(*ssa.BinOp)
+			if !ok || !(bo.Op == token.NEQ || bo.Op == token.EQL) || !(core.IsNilConst(bo.X) || core.IsNilConst(bo.Y)) {
+				continue
+			}
+			for _, r3 := range core.Referrers(bo) {
+				if iff, ok := r3.(*ssa.If); ok {
+					k := 0
+					if bo.Op == token.EQL {
+						k = 1
+					}
+					failBlk = iff.Block().Succs[k]
+				}
+			}
+		}
+	}
+	if failBlk != nil {
+		seenB[failBlk] = true
+		scan(failBlk, 0)
+	} else {
+		start := 0
+		for i, in := range stmtCall.Block().Instrs {
+			if in == ssa.Instruction(stmtCall) {
+				start = i + 1
+			}
+		}
+		scan(stmtCall.Block(), start)
+	}
+	if moved == "" {
+		r.OK("error-anchor", "ParseError.TokenIdx", p.Pos(site.Pos()), "the helper "+h.Name()+" names the token under the cursor, and it is called before anything moves the cursor past the failed statement")
+	} else {
+		r.Violate("error-anchor", "ParseError.TokenIdx", p.Pos(site.Pos()), "the helper "+h.Name()+" names the token under the cursor, but on the failure path the cursor has already been moved by "+moved+" when it is called: the error names a token of the following statement")
+	}
+	return true
 }
